@@ -472,6 +472,8 @@ type cursorCase struct {
 	clause *ast.CaseClause
 	typ    types.Type
 	bound  types.Object // the type-switch variable in this clause
+	// the value the switch is over (`node` in `switch typedNode := node.(type)`): inside the clause it has the clause's type
+	subject types.Object
 }
 
 // dispatchChain expands a cursor constructor into the ordered list of case-bearing functions it consults.
@@ -523,11 +525,12 @@ func casesOf(p *packages.Package, fd *ast.FuncDecl, fnName string) []cursorCase 
 		if !ok {
 			return true
 		}
+		subject := typeSwitchSubject(p.TypesInfo, ts)
 		for _, c := range ts.Body.List {
 			cc := c.(*ast.CaseClause)
 			for _, te := range cc.List {
 				if tv, ok := p.TypesInfo.Types[te]; ok && !tv.IsNil() {
-					out = append(out, cursorCase{fn: fnName, clause: cc, typ: tv.Type, bound: p.TypesInfo.Implicits[cc]})
+					out = append(out, cursorCase{fn: fnName, clause: cc, typ: tv.Type, bound: p.TypesInfo.Implicits[cc], subject: subject})
 				}
 			}
 		}
@@ -597,6 +600,17 @@ func fieldsPlaced(p *packages.Package, c cursorCase, owner *types.Named) map[*ty
 								}
 								if id, ok := a.(*ast.Ident); ok && c.bound != nil && info.Uses[id] == c.bound {
 									passesNode = true
+								}
+							}
+							// the switch's subject handed to a function that dispatches on its type again: inside this clause the
+							// callee takes the clause for the same type (directly, or in a function it hands the value on to)
+							if !passesNode && c.subject != nil {
+								for ai, a := range x.Args {
+									if id, ok := ast.Unparen(a).(*ast.Ident); ok && info.Uses[id] == c.subject {
+										for v, n := range delegatedFields(p, fn, ai, c.typ, owner, 0) {
+											out[v] += n
+										}
+									}
 								}
 							}
 							if passesNode || depth > 0 {
@@ -794,6 +808,13 @@ func checkCypherWalkers(r *Run) {
 					continue
 				}
 				if !isChildField(f, modelPkgs) {
+					// a value of the model package that is not a child in the structural sense (an operator, a sort order) but
+					// that the walker hands out as a node of its own: it, too, is handed out once
+					if nf := namedOf(f.Type()); nf != nil && modelPkgs[nf.Obj().Pkg()] && placed[f] > 1 {
+						if _, isBasic := nf.Underlying().(*types.Basic); isBasic {
+							r.Fail("C11-walk-structural-child", name+"."+f.Name(), sc.clause.Pos(), "structural walker (%s) places field %s %d times: the walk reports it more than once", sc.fn, f.Name(), placed[f])
+						}
+					}
 					continue
 				}
 				construct := name + "." + f.Name()
@@ -1167,4 +1188,78 @@ func knownNilAt(info *types.Info, fd *ast.FuncDecl, at ast.Node, e ast.Expr) boo
 		}
 	}
 	return false
+}
+
+func typeSwitchSubject(info *types.Info, ts *ast.TypeSwitchStmt) types.Object {
+	var x ast.Expr
+	switch a := ts.Assign.(type) {
+	case *ast.AssignStmt:
+		if len(a.Rhs) == 1 {
+			if ta, ok := ast.Unparen(a.Rhs[0]).(*ast.TypeAssertExpr); ok {
+				x = ta.X
+			}
+		}
+	case *ast.ExprStmt:
+		if ta, ok := ast.Unparen(a.X).(*ast.TypeAssertExpr); ok {
+			x = ta.X
+		}
+	}
+	if id, ok := ast.Unparen(x).(*ast.Ident); ok {
+		return info.Uses[id]
+	}
+	return nil
+}
+
+// delegatedFields: fn receives, as argument idx, a value whose dynamic type is typ; the fields of typ it places in a
+// cursor: those of the clause for typ of its own type switch over that parameter, or of a function it hands the
+// parameter on to.
+func delegatedFields(p *packages.Package, fn *types.Func, idx int, typ types.Type, owner *types.Named, depth int) map[*types.Var]int {
+	out := map[*types.Var]int{}
+	if depth > 2 {
+		return out
+	}
+	info := p.TypesInfo
+	fd := FuncDecls(p)[declKeyOf(fn)]
+	if fd == nil || fd.Body == nil {
+		return out
+	}
+	var param types.Object
+	i := 0
+	if fd.Type.Params != nil {
+		for _, pl := range fd.Type.Params.List {
+			for _, nm := range pl.Names {
+				if i == idx {
+					param = info.Defs[nm]
+				}
+				i++
+			}
+		}
+	}
+	if param == nil {
+		return out
+	}
+	for _, c := range casesOf(p, fd, fn.Name()) {
+		if c.subject == param && types.Identical(c.typ, typ) {
+			return fieldsPlaced(p, c, owner)
+		}
+	}
+	ast.Inspect(fd.Body, func(n ast.Node) bool {
+		call, ok := n.(*ast.CallExpr)
+		if !ok {
+			return true
+		}
+		callee := calleeOf(info, call)
+		if callee == nil || callee.Pkg() != p.Types || callee == fn {
+			return true
+		}
+		for ai, a := range call.Args {
+			if id, ok := ast.Unparen(a).(*ast.Ident); ok && info.Uses[id] == param {
+				for v, n := range delegatedFields(p, callee, ai, typ, owner, depth+1) {
+					out[v] += n
+				}
+			}
+		}
+		return true
+	})
+	return out
 }
